@@ -50,6 +50,14 @@ pub fn singleton_table(lang: &str) -> Vec<(char, char)> {
     }
 }
 
+/// Pairs of non-letters composed into one non-letter (user-defined language only; not part of the letter inventory).
+pub fn symbol_pairs(lang: &str) -> Vec<(char, char, char)> {
+    match lang {
+        "xc" => vec![('-', '-', '\u{2014}')],
+        _ => vec![],
+    }
+}
+
 /// Letters folded to two letters (no decomposed form).
 pub fn expanding_table(lang: &str) -> Vec<(char, &'static str)> {
     match lang {
@@ -57,7 +65,7 @@ pub fn expanding_table(lang: &str) -> Vec<(char, &'static str)> {
         "fr" => vec![('Æ', "AE"), ('æ', "ae"), ('Œ', "OE"), ('œ', "oe"), ('Ø', "OE"), ('ø', "oe")],
         "xk" => vec![('ゟ', "より")],
         // the reduce-only language: every entry of its reduce table (two of them do not lengthen the text)
-        "xr" => vec![('ß', "ss"), ('ẞ', "SS"), ('é', "e"), ('É', "E"), ('ø', "oe"), ('Ø', "OE")],
+        "xr" => vec![('ß', "ss"), ('ẞ', "SS"), ('é', "e"), ('É', "E"), ('ø', "oe"), ('Ø', "OE"), ('w', "v"), ('W', "V"), ('x', "ks"), ('X', "KS")],
         _ => vec![],
     }
 }
@@ -88,12 +96,18 @@ pub fn accents(lang: &str) -> Vec<Accent> {
 pub fn compose(lang: &str, input: &[char]) -> Vec<char> {
     let acc = accents(lang);
     let single = singleton_table(lang);
+    let pairs = symbol_pairs(lang);
     let mut out = Vec::with_capacity(input.len());
     let mut i = 0;
     while i < input.len() {
         if i + 1 < input.len() {
             if let Some(a) = acc.iter().find(|a| a.base == input[i] && a.mark == input[i + 1]) {
                 out.push(a.composed);
+                i += 2;
+                continue;
+            }
+            if let Some(p) = pairs.iter().find(|p| p.0 == input[i] && p.1 == input[i + 1]) {
+                out.push(p.2);
                 i += 2;
                 continue;
             }
